@@ -117,6 +117,7 @@ fn battery(r: &QueryRouter) -> (String, String, String) {
         g.push(canon(&exec(r, &format!("NODE GET {n}"))));
     }
     v.push(canon(&exec(r, "SHOW EMBEDDINGS")));
+    v.push(canon(&exec(r, "COUNT EMBEDDINGS")));
     for k in EKEYS {
         v.push(canon(&exec(r, &format!("EMBED GET '{k}'"))));
     }
